@@ -68,7 +68,7 @@ def concretize(sysm, res):
 
 
 def triples(infos):
-  return [(i["tid"], i["target"], i["op"]) for i in infos if i["op"] != "start"]
+  return [(i["tid"], i["target"], i["op"]) for i in infos if i["op"] != "<begin>"]
 
 
 def find_loop(states, start_hint=None):
@@ -126,7 +126,7 @@ def run_query(spec):
       out["concrete_confirms"] = ok
       out["ghost"] = {k: v for k, v in states[-1].items() if k.startswith("g.")}
       out["trace"] = ["%s: %s.%s%s" % (sysm.prog(i["tid"]).name, i["target"], i["op"], "" if i["outcome"] in (None, "ok") else " -> " + i["outcome"])
-                      for i in infos if i["op"] != "start"]
+                      for i in infos if i["op"] != "<begin>"]
       if spec.get("replay") and ok:
         from vf.e2 import harness
         rep = None
